@@ -46,6 +46,28 @@ namespace sim
       return *schema;
     }
 
+    // the schema published with the repository (doc/world_builder_declarations.schema.json of the tree under
+    // test): a change that drops a constraint from the code AND from the schema the code writes out is still
+    // measured against what the project has published
+    bool doc_schema_valid(const Document &doc)
+    {
+      static SchemaDocument *sd = nullptr;
+      static bool tried = false;
+      if (!tried)
+        {
+          tried = true;
+          const std::string txt = read_file(repo_dir() + "/doc/world_builder_declarations.schema.json");
+          Document s;
+          s.Parse<kParseNanAndInfFlag>(txt.c_str(), txt.size());
+          if (!txt.empty() && !s.HasParseError() && s.IsObject())
+            sd = new SchemaDocument(s);
+        }
+      if (sd == nullptr)
+        return true;
+      SchemaValidator v(*sd);
+      return doc.Accept(v);
+    }
+
     bool schema_valid(const Document &doc, bool &usable)
     {
       static SchemaDocument *sd = nullptr;
@@ -122,6 +144,59 @@ namespace sim
       if (nodes.empty())
         return "";
       auto &al = d.GetAllocator();
+      if (rng.chance(0.25))
+        {
+          // length mismatch between list-valued siblings: take an object that holds two or more lists and
+          // change the length of one of them by one (or cut it down to one element / nothing)
+          std::vector<Value *> holders;
+          std::vector<NodeRef> stack_nodes = nodes;
+          for (const auto &nr : nodes)
+            {
+              Value &ov = node_value(nr);
+              if (!ov.IsObject())
+                continue;
+              int lists = 0;
+              for (auto &m : ov.GetObject())
+                if (m.value.IsArray())
+                  ++lists;
+              if (lists >= 2)
+                holders.push_back(&ov);
+            }
+          if (!holders.empty())
+            {
+              Value &ov = *holders[rng.below(holders.size())];
+              std::vector<Value *> lists;
+              std::vector<std::string> names;
+              for (auto &m : ov.GetObject())
+                if (m.value.IsArray())
+                  {
+                    lists.push_back(&m.value);
+                    names.push_back(m.name.GetString());
+                  }
+              const size_t li = rng.below(lists.size());
+              Value &lv = *lists[li];
+              const int how = static_cast<int>(rng.below(4));
+              if (how == 0 && lv.Size() > 0)
+                lv.PopBack();
+              else if (how == 1)
+                {
+                  if (lv.Size() > 0)
+                    {
+                      Value c(lv[lv.Size() - 1], al);
+                      lv.PushBack(c, al);
+                    }
+                  else
+                    lv.PushBack(Value(1.0), al);
+                }
+              else if (how == 2)
+                while (lv.Size() > 1)
+                  lv.PopBack();
+              else
+                lv.Clear();
+              ++applied;
+              return "length " + names[li];
+            }
+        }
       // bias towards arrays (list-valued parameters that have to agree in length)
       NodeRef n = nodes[rng.below(nodes.size())];
       if (rng.chance(0.45))
@@ -132,7 +207,8 @@ namespace sim
                                           "deflections", "depths", "centerline temperatures", "gaussian sigmas", "segments", "sections", "coordinates",
                                           "thickness", "angle", "top truncation", "min value", "max value", "rotation matrices", "Euler angles z-x-z",
                                           "basis rotation matrices", "basis Euler angles z-x-z", "top fractions", "bottom fractions", "center fractions",
-                                          "side fractions", "min depth", "max depth", "dip point", "cross section", "velocity"
+                                          "side fractions", "min depth", "max depth", "dip point", "cross section", "velocity", "coordinate", "number of points in spline",
+                                          "random number seed", "plate age", "length"
                                          };
           std::vector<size_t> hits;
           for (size_t i = 0; i < nodes.size(); ++i)
@@ -164,7 +240,31 @@ namespace sim
         }
       Value &v = node_value(n);
       const std::string key = node_key(n);
-      const int kind = static_cast<int>(rng.below(13));
+      // an operator that applies to this kind of value (0 delete, 1 duplicate, 2 rename, 3 retype, 4 empty,
+      // 5 truncate, 6 extend, 7/8 edge value, 9 string, 10 version, 11 nest, 12 scale)
+      int kind;
+      if (rng.chance(0.05))
+        kind = 10;
+      else if (v.IsArray())
+        {
+          static const int k[] = {0, 1, 2, 3, 4, 5, 5, 5, 6, 6, 11};
+          kind = k[rng.below(11)];
+        }
+      else if (v.IsNumber())
+        {
+          static const int k[] = {0, 1, 3, 7, 7, 8, 12, 12, 11};
+          kind = k[rng.below(9)];
+        }
+      else if (v.IsString())
+        {
+          static const int k[] = {0, 2, 3, 9, 9, 9};
+          kind = k[rng.below(6)];
+        }
+      else
+        {
+          static const int k[] = {0, 1, 2, 3, 11};
+          kind = k[rng.below(5)];
+        }
       std::string what;
       switch (kind)
         {
@@ -216,10 +316,17 @@ namespace sim
                 what = "empty " + key;
               }
             break;
-          case 5: // truncate an array
+          case 5: // truncate an array: drop the last element, or keep only 0, 1 or 2 elements
             if (v.IsArray() && v.Size() > 0)
               {
-                v.PopBack();
+                if (rng.chance(0.5))
+                  v.PopBack();
+                else
+                  {
+                    const SizeType keep = static_cast<SizeType>(rng.below(3));
+                    while (v.Size() > keep)
+                      v.PopBack();
+                  }
                 what = "truncate " + key;
               }
             break;
@@ -241,9 +348,20 @@ namespace sim
             if (v.IsNumber() && !work_multiplier(key))
               {
                 static const double edge[] = {0.0, -0.0, -1.0, 1.0, 1e308, -1e308, 5e-324, 1e-300, 1e30, -1e30, 2147483648.0, 4294967296.0, 1e19,
-                                              std::numeric_limits<double>::quiet_NaN(), std::numeric_limits<double>::infinity(), -std::numeric_limits<double>::infinity()
+                                              std::numeric_limits<double>::quiet_NaN(), std::numeric_limits<double>::infinity(), -std::numeric_limits<double>::infinity(),
+                                              2.0, 3.0, 4.0, 5.0, 7.0, 1e9, 65536.0, 1e6
                                              };
-                v.SetDouble(edge[rng.below(16)]);
+                const double ev = edge[rng.below(24)];
+                // index-like parameters stay integers so that they pass the type check and reach the code
+                if (v.IsInt() || v.IsUint())
+                  {
+                    if (ev == std::floor(ev) && std::fabs(ev) < 2e9)
+                      v.SetInt(static_cast<int>(ev));
+                    else
+                      v.SetDouble(ev);
+                  }
+                else
+                  v.SetDouble(ev);
                 what = "edge value " + key;
               }
             else if (v.IsNumber())
@@ -634,6 +752,8 @@ namespace sim
       bool usable = false;
       if (!schema_valid(d, usable))
         return "schema";
+      if (!doc_schema_valid(d))
+        return "doc-schema";
       if (d.HasMember("version") && d["version"].IsString() && std::string(d["version"].GetString()) != "1.1")
         return "version";
       std::string rule;
